@@ -191,8 +191,10 @@ func (s *tileStub) ServeHTTP(rw http.ResponseWriter, rq *http.Request) {
 
 var c18Trees sync.Map // dense/seed -> *RefTree, shared across runs of one process (memoised node hashes)
 
-func c18Tree(dense uint64, seed uint64) *RefTree {
-	key := fmt.Sprintf("%d/%d", dense, seed)
+// lead != 0 asks for a tree in which hash tile lead>>8 of level 0 begins with byte lead&0xff (a record whose leaf hash starts
+// with that byte is looked for): hash tiles are raw bytes, and any byte can come first - '<', a blank, a line feed, 0x1f.
+func c18Tree(dense uint64, seed uint64, lead int64) *RefTree {
+	key := fmt.Sprintf("%d/%d/%d", dense, seed, lead)
 	if t, ok := c18Trees.Load(key); ok {
 		return t.(*RefTree)
 	}
@@ -200,6 +202,15 @@ func c18Tree(dense uint64, seed uint64) *RefTree {
 	r := NewRng(seed)
 	for i := 0; i < 24; i++ {
 		sp[r.U64n(1<<21)] = fmt.Sprintf("sp%d", i)
+	}
+	if lead != 0 {
+		for i := 0; ; i++ {
+			c := fmt.Sprintf("lead%d", i)
+			if h := hashLeaf([]byte("s:" + c)); h[0] == byte(lead) {
+				sp[uint64(lead>>8)*256] = c
+				break
+			}
+		}
 	}
 	t := NewRefTree(dense, sp)
 	c18Trees.Store(key, t)
@@ -255,7 +266,7 @@ func c18Exec(t *testing.T, p *Plan, pairs []c18Pair, faults map[string]string) (
 		pinGlobalRand(p.Seed)
 		w := NewWorld(p)
 		ld := w.Logs[0]
-		tree := c18Tree(p.Cfg.Dense, uint64(p.Cfg.Extra["treeseed"]))
+		tree := c18Tree(p.Cfg.Dense, uint64(p.Cfg.Extra["treeseed"]), p.Cfg.Extra["lead"])
 		ld.Branches[0] = tree
 		stub := &tileStub{tree: tree, origin: ld.Origin, key: ld.Key, world: w, keyIdx: ld.KeyIdx, kind: "sumdb"}
 		sn := NewSimNet()
@@ -406,7 +417,7 @@ func c18Grow(t *testing.T, p *Plan, sizes []uint64) (viol []Violation, infra str
 		pinGlobalRand(p.Seed)
 		w := NewWorld(p)
 		ld := w.Logs[0]
-		tree := c18Tree(p.Cfg.Dense, uint64(p.Cfg.Extra["treeseed"]))
+		tree := c18Tree(p.Cfg.Dense, uint64(p.Cfg.Extra["treeseed"]), p.Cfg.Extra["lead"])
 		ld.Branches[0] = tree
 		stub := &tileStub{tree: tree, origin: ld.Origin, key: ld.Key, world: w, keyIdx: ld.KeyIdx, kind: "sumdb", size: sizes[0]}
 		sn := NewSimNet()
@@ -654,6 +665,13 @@ func init() {
 			case 1, 2:
 				p.Cfg.Notes["mode"] = "pairs"
 				p.Cfg.Notes["pairs"] = randomPairs(c18Batch)
+				if n%8 == 1 && r.Chance(0.5) {
+					// a tree one of whose hash tiles begins with a byte that text-minded code might take for something else
+					tile := int64(r.IntN(5))
+					p.Cfg.Extra["lead"] = tile<<8 | int64(Pick(r, '<', '<', ' ', '\n', '\t', '\r', '{', '[', '"', 0x1f, 0xff, 0xef, '#', '-', '0'))
+					a := uint64(tile)*256 + 1 + r.U64n(250)
+					p.Cfg.Notes["pairs"] += fmt.Sprintf(",%d-%d,%d-%d", a, a+1+r.U64n(700), a, uint64(tile)*256+256+r.U64n(3))
+				}
 				if n%8 == 2 {
 					// one pair, with a competing submitter moving the witness to a size in between before the feeder's update lands
 					for {
